@@ -59,7 +59,8 @@ theorem content_edit_atomic_crash (orig : Tree) (hs : List Hunk) (cfg : Cfg) (fi
     destination, which makes the tree strictly shorter (excluded by the pre-flight, C05) -/
 theorem rename_phase_crash_ok (orig : Tree) (cfg : Cfg) (rs : List Ren) (perf : List (Path × Path)) (s : St)
     (hstart : NodesKept orig s.t) : NodesKept orig (renameLoop cfg perf rs s).st.t := by
-  have := safe_renameLoop (orig := orig) cfg rs perf s hstart
+  have := safe_renameLoop (orig := orig) ExecFlags.rollbackRealPairs cfg rs perf [] s hstart
+  change Sat _ _ (renameLoop cfg perf rs s) at this
   cases hx : renameLoop cfg perf rs s with
   | ok a s' => rw [hx] at this; exact this
   | err e s' => rw [hx] at this; exact this
